@@ -14,6 +14,8 @@ Driver for C15.
    `readable` is `ReadableTree` of the tree.
 `drv c15 readable` — line: a `<txn-tree>` → `readable=0|1` (`ReadableTree` evaluated on a tree the real importer built).
 `drv c15 viseca` — the Viseca statement model on the lines of a statement (`Drv/Viseca.lean`).
+`drv c15 csv` — the CSV importer model on the cells of a statement, number cells and templates decoded by the MODEL from their
+   text (`Cells.cellEnv`, `Cells.decodePos`); shared with `drv c17 csv`, see `Drv/C17.lean` (`csvStep`).
 -/
 namespace Okane.Drv.C15
 open Okane Okane.Import Okane.Drv Sexp
@@ -87,6 +89,7 @@ def main (args : List String) : IO Unit :=
   | "txn" :: _ => forEachLine txnStep
   | "readable" :: _ => forEachLine readableStep
   | "viseca" :: _ => Okane.Drv.Viseca.main
+  | "csv" :: _ => forEachLine Okane.Drv.C17.csvStep
   | _ => forEachLine fun _ => "(bad-mode)"
 
 end Okane.Drv.C15
